@@ -251,6 +251,8 @@ func c10Gen(t *rapid.T) c10Case {
 			{},
 			nil,
 			{"OTHER": "value"},
+			{"REQ": "{TARGET}", "TARGET": existing},
+			{"REQ": "{Z}", "Z": existing, "A": "{REQ}"},
 		}
 		n := rapid.IntRange(1, 4).Draw(t, "ncalls")
 		for i := 0; i < n; i++ {
